@@ -198,6 +198,28 @@ def geometry_rules(ctx):
             for s in n.orelse:
                 if isinstance(s, ast.If) and rules.always_raises(s.body):
                     refusal = s
+    # DEFAULT-POS-FLOW: the default is computed for *this call's* normal only if the caller's `pos` (None when not
+    # given) reaches define_slicing_coordinates untouched; a fallback to instance state (`pos = self.pos`) hands the
+    # position of the previous slice - or whatever the constructor stored - to a slice along another normal
+    sl = prog.func(MA, "Mandoline.slice", P)
+    calls = [c for c in walk_no_nested(sl.node) if isinstance(c, ast.Call) and norm(c.func) == "self.define_slicing_coordinates"]
+    if not calls:
+        ctx.unknown(f"{P}.DEFAULT-POS-FLOW", sl.site, "slice() no longer calls define_slicing_coordinates")
+    for c in calls:
+        arg = c.args[1] if len(c.args) > 1 else next((k.value for k in c.keywords if k.arg == "pos"), None)
+        srcs = [arg] if arg is not None else []
+        if isinstance(arg, ast.Name):
+            srcs += [a.value for a in walk_no_nested(sl.node) if isinstance(a, ast.Assign)
+                     and any(isinstance(t, ast.Name) and t.id == arg.id for t in a.targets)]
+        state = [norm(x) for e in srcs for x in ast.walk(e) if isinstance(x, ast.Attribute) and isinstance(x.value, ast.Name)
+                 and x.value.id == "self" and isinstance(x.ctx, ast.Load) and x.attr not in ("geo_low", "geo_high", "cn")]
+        ctx.check(arg is not None and not state, f"{P}.DEFAULT-POS-FLOW", sl.site,
+                  "the position handed to define_slicing_coordinates is the caller's own (None when not given), so the "
+                  "default is the centre along this call's normal",
+                  f"slice() replaces a missing position by instance state ({', '.join(sorted(set(state))) or 'no position passed'}) "
+                  f"before define_slicing_coordinates sees it: the default is then the position of the previous slice "
+                  f"(or what the constructor stored), taken along whatever normal that was - not the domain centre along "
+                  f"this call's normal", key="sticky-pos", where=loc(sl, c), semantic=True)
     lo, hi = A("self.geo_low[cn]"), A("self.geo_high[cn]")
     formulas.formula_rule(ctx, f"{P}.DEFAULT-POS", fi, dflt, (lo + hi) / 2, (), "default slice position (domain centre)",
                           "default", {})
